@@ -178,7 +178,7 @@ def gen_program(rnd, n_ops, pid):
             ops.append({"op": "mp-create", "bucket": bk, "key": key, "upload": u, "content": rnd.choice(CONTENT), "meta": rnd.choice(METAS)})
         elif x < 0.90 and ups:
             u = rnd.choice(sorted(ups) + [99]); up = ups.get(u, {"bucket": bk, "key": key, "parts": {}})
-            n = rnd.choice([1, 1, 2, 3]); size = rnd.choice([17, 1000, MIN]) if u != 99 else 17; s_ = newsalt()
+            n = rnd.choice([1, 1, 2, 3]); size = rnd.choice([17, 1000, MIN, 0]) if u != 99 else 17; s_ = newsalt()
             if rnd.random() < 0.25 and objs:
                 (sb, sk) = rnd.choice(sorted(objs)); ops.append({"op": "mp-part-copy", "bucket": up["bucket"], "key": up["key"], "upload": u, "n": n, "srcbucket": sb, "src": sk, "range": rnd.choice(["", "bytes=0-3", "bytes=2-", "bytes=0-999999"])})
                 up["parts"][n] = None
@@ -198,6 +198,8 @@ def gen_program(rnd, n_ops, pid):
     ops.append({"op": "mp-create", "bucket": bks[0], "key": k_, "upload": u, "content": CONTENT[1], "meta": METAS[1]})
     for n in (1, 2, 3, 5):
         ops.append({"op": "mp-part", "bucket": bks[0], "key": k_, "upload": u, "n": n, "size": 17 + n, "salt": newsalt()})
+    # (a zero-length part, as the last part of an upload may be)
+    ops.append({"op": "mp-part", "bucket": bks[0], "key": k_, "upload": u, "n": 6, "size": 0, "salt": newsalt()})
     for mx in (1, 2):
         for marker in (0, 1, 2, 3, 5):
             ops.append({"op": "mp-list-parts", "bucket": bks[0], "key": k_, "upload": u, "max": mx, "marker": marker})
@@ -267,8 +269,44 @@ def run(chk):
                             json.dumps(desc, sort_keys=True)[:300], {k: a.get(k) for k in diff}, {k: b.get(k) for k in diff}),
                             {"program": prog[:i + 1], "direct": a, "proxy": b})
                         break
+            if not quick or os.environ.get("VERIF_C18_SLOW"):      # (VERIF_C18_SLOW=1: also in the quick tier, used when a seeded change is tried)
+                slow_transfer(chk, gd, gp)
             chk.tie("gateways still running", gd.alive() and ge.alive() and gp.alive(), gp.log_tail())
     kept_data(chk, gwbin)
+
+
+def slow_transfer(chk, gd, gp):
+    """(thorough tier: it takes 35 s of waiting) a large object downloaded by a reader that pauses for longer than any plausible idle
+    timeout: the bytes received through the proxy are the bytes received from the endpoint"""
+    import http.client, ssl, time, urllib.parse
+    size = 64 << 20
+    blob = body_of(size, 424242)
+    res = {}
+    for side, port, tls in (("direct", gd.port, True), ("proxy", gp.port, False)):
+        c = s3c.Client(port, "root", "rootsecret", tls=tls)
+        c.req("PUT", "/slowbkt"); rp = c.req("PUT", "/slowbkt/big", body=blob, timeout=120)
+        url, hd = c.presign("GET", "/slowbkt/big", {}, expires=600)
+        u = urllib.parse.urlsplit(url)
+        conn = http.client.HTTPSConnection("127.0.0.1", port, timeout=120, context=ssl._create_unverified_context()) if tls else http.client.HTTPConnection("127.0.0.1", port, timeout=120)
+        got, err = hashlib.sha256(), ""; n = 0
+        try:
+            conn.request("GET", u.path + "?" + u.query, headers=hd)
+            r = conn.getresponse()
+            first = r.read(1 << 20); got.update(first); n += len(first)
+            time.sleep(35 if side == "proxy" else 1)
+            while True:
+                b = r.read(1 << 20)
+                if not b: break
+                got.update(b); n += len(b)
+        except Exception as e:
+            err = "%s: %s" % (type(e).__name__, e)
+        finally:
+            conn.close()
+        res[side] = {"put_status": rp.status, "bytes": n, "sha256": got.hexdigest(), "error": err}
+    chk.case(("slow-download", size), True); chk.traces += 1; chk.count("slow-download:%s" % ("same" if res["direct"] == res["proxy"] else "differs"))
+    want = {"put_status": 200, "bytes": size, "sha256": hashlib.sha256(blob).hexdigest(), "error": ""}
+    if res["direct"] == want and res["proxy"] != want:
+        chk.fail("c18:slow-download", "a %d-byte object read with a 35 s pause after the first MiB: the endpoint delivers it whole, through the gateway the client gets %r" % (size, res["proxy"]), res)
 
 
 def kept_data(chk, gwbin):
